@@ -888,6 +888,8 @@ fn main() {
             let out = PathBuf::from(args.req("--out"));
             let mut rng = fastrand::Rng::with_seed(seed() ^ 0xfe7c);
             let scenarios: Vec<Value> = (0..n_runs).map(|_| random_scenario(&mut rng, nns)).collect();
+            let budget = args.num("--budget-secs", 100_000);
+            let t0 = std::time::Instant::now();
             let chunks = split(scenarios, nthreads, uni_key);
             let handles: Vec<_> = chunks
                 .into_iter()
@@ -897,6 +899,9 @@ fn main() {
                         let mut cache = Cache::default();
                         let mut recs = Vec::new();
                         for mut c in chunk {
+                            if t0.elapsed().as_secs() > budget {
+                                break;
+                            }
                             let sc = Scenario::parse(&c);
                             let u = cache.get(&work, &sc);
                             let o = run_scenario(u, &sc);
